@@ -2,6 +2,8 @@ package main
 
 import (
 	"fmt"
+	"go/ast"
+	"go/types"
 	"os"
 	"path/filepath"
 	"regexp"
@@ -152,6 +154,38 @@ func isWordRune(r rune) bool {
 	return r == '_' || (r >= 'a' && r <= 'z') || (r >= 'A' && r <= 'Z') || (r >= '0' && r <= '9')
 }
 
+// runtimeCorpus: tiny accepted programs that apply every binary and prefix
+// operator to boundary operand values (zero divisors, negative shift counts,
+// extreme integers), the inputs on which VM and interpreter guards matter.
+func runtimeCorpus() []string {
+	ints := []string{"0", "1", "(0-1)", "7", "63", "64", "(0-9223372036854775807-1)", "9223372036854775807"}
+	ops := []string{"+", "-", "*", "/", "%", "**", "<<", ">>", "|", "&", "^", "<", ">", "<=", ">=", "==", "!="}
+	var out []string
+	for _, op := range ops {
+		for _, l := range []string{"7", "(0-9223372036854775807-1)", "0"} {
+			for _, r := range ints {
+				out = append(out, fmt.Sprintf("fn main() { let a = %s; let b = %s; println(a %s b); }", l, r, op))
+			}
+		}
+	}
+	floats := []string{"0.0", "1.5", "(0.0-2.5)"}
+	for _, op := range []string{"+", "-", "*", "/", "**", "<", ">=", "=="} {
+		for _, l := range floats {
+			for _, r := range floats {
+				out = append(out, fmt.Sprintf("fn main() { let a = %s; let b = %s; println(a %s b); }", l, r, op))
+			}
+		}
+	}
+	out = append(out,
+		"fn main() { let a = true; let b = false; println(a | b, a & b, a ^ b, !a); }",
+		"fn main() { let s = \"a\" + \"b\"; println(s); }",
+		"fn main() { let x = [1, 2, 3]; println(x[0-1], x[3]); }",
+		"fn main() { let o = ?1; println(o.unwrap()); let n: ?int = none; println(n.unwrap()); }",
+		"fn main() { try { throw(\"x\"); } catch e { println(e.message); } }",
+	)
+	return out
+}
+
 func exampleCorpus(root string) []string {
 	var out []string
 	for _, pat := range []string{"examples/*.hms", "tests/*.hms", "tests/*/*.hms", "test/*.hms"} {
@@ -195,7 +229,7 @@ func racMatches(o *Obligation, line string) bool {
 			return line == "RAC-PREFAIL "+name[:i]
 		}
 	case "nil", "idx", "cast", "div", "shift", "unreachable", "ext":
-		return strings.HasPrefix(line, "RAC-PANIC "+o.Func+" ")
+		return strings.HasPrefix(line, "RAC-PANIC "+o.Func+" ") || strings.HasPrefix(line, "RAC-PANIC "+o.Func+".func")
 	case "dec":
 		return strings.HasPrefix(line, "RAC-HANG")
 	}
@@ -276,6 +310,8 @@ func unitReplaySource(p *Prog, o *Obligation, n int) (unitTest, bool) {
 
 import (
 	"fmt"
+	"go/ast"
+	"go/types"
 	"os"
 	"testing"
 )
@@ -321,10 +357,17 @@ func replayAll(p *Prog, failed []*Obligation) map[*Obligation]*ReplayResult {
 			origin = append(origin, "single-fault variants of one-construct seed programs")
 		}
 	}
+	if strings.Contains(stages, "run") {
+		for _, t := range runtimeCorpus() {
+			corpus = append(corpus, t)
+			origin = append(origin, "operator x boundary-operand programs")
+		}
+	}
 	for _, t := range exampleCorpus(p.Root) {
 		corpus = append(corpus, t)
 		origin = append(origin, "repository example program")
 	}
+	computeRacOldTypes(p)
 	var units []unitTest
 	unitOf := map[*Obligation]int{}
 	unitCall := map[*Obligation]string{}
@@ -383,4 +426,67 @@ func replayAll(p *Prog, failed []*Obligation) map[*Obligation]*ReplayResult {
 		res[o] = r
 	}
 	return res
+}
+
+// computeRacOldTypes records, for every function under contract, the type
+// text of each old(...) expression as it must be written in that function's
+// file (package qualifiers as imported there).
+func computeRacOldTypes(p *Prog) {
+	for _, fi := range p.Funcs {
+		if fi.Contract == nil || fi.Decl == nil || fi.Decl.Body == nil {
+			continue
+		}
+		file := p.Fset.Position(fi.Decl.Pos()).Filename
+		dir := filepath.Dir(file)
+		// import names of this file
+		names := map[string]string{}
+		for _, f := range fi.Pkg.Syntax {
+			if p.Fset.Position(f.Pos()).Filename != file {
+				continue
+			}
+			for _, im := range f.Imports {
+				path := strings.Trim(im.Path.Value, "\"")
+				if im.Name != nil {
+					names[path] = im.Name.Name
+				} else if ip := fi.Pkg.Imports[path]; ip != nil {
+					names[path] = ip.Name
+				}
+			}
+		}
+		ok := true
+		qual := func(pk *types.Package) string {
+			if pk == fi.Pkg.Types {
+				return ""
+			}
+			if n, found := names[pk.Path()]; found {
+				return n
+			}
+			ok = false
+			return pk.Name()
+		}
+		var out []string
+		for _, e := range fi.Ensures {
+			ast.Inspect(e.Expr, func(n ast.Node) bool {
+				call, isCall := n.(*ast.CallExpr)
+				if !isCall || markerName(call) != "__old" {
+					return true
+				}
+				ok = true
+				t := fi.Pkg.TypesInfo.Types[call].Type
+				txt := ""
+				if t != nil {
+					txt = types.TypeString(t, qual)
+					if !ok || strings.Contains(txt, "untyped") {
+						txt = ""
+					}
+				}
+				out = append(out, txt)
+				return false // nested old() is not hoisted separately
+			})
+		}
+		if racOldTypes[dir] == nil {
+			racOldTypes[dir] = map[string][]string{}
+		}
+		racOldTypes[dir][fi.Key] = out
+	}
 }
